@@ -19,15 +19,16 @@ Flags == IF Full THEN [crc : BOOLEAN, large : BOOLEAN, toSender : BOOLEAN, unack
                 [crc |-> TRUE,  large |-> TRUE,  toSender |-> FALSE, unack |-> TRUE,  segctl |-> TRUE] }
 Common == {Ext(f, w) : f \in Flags, w \in [idw : Widths, seqw : (IF Full THEN Widths ELSE {1, 8})]}
 Zero == [datal |-> 0, metal |-> 0, err |-> FALSE, nresp |-> 0, l1 |-> 0, l2 |-> 0, t1 |-> "none", t2 |-> "none", nreq |-> 0]
-Shapes ==
+AllShapes ==
   {Ext(c, Ext(Zero, x)) : c \in Common,
      x \in [kind : {"FileData"}, datal : {0, 1, 100}]
        \cup [kind : {"FileDataSeg"}, datal : {0, 1, 100}, metal : {0, 1, 63}]
        \cup [kind : {"EOF"}, err : BOOLEAN]
-       \cup [kind : {"Finished"}, err : BOOLEAN, nresp : {0, 1, 2}, l1 : NameLens, l2 : {0, 1}]
+       \cup [kind : {"Finished"}, err : BOOLEAN, nresp : {0, 1, 2}, l1 : {0, 1, 250, 255}, l2 : {0, 1}]
        \cup [kind : {"ACK", "Prompt", "KeepAlive"}]
        \cup [kind : {"Metadata"}, l1 : NameLens, l2 : {0, 1}, t1 : TlvKinds, t2 : {"none", "fsreq", "msg", "entity"}]
        \cup [kind : {"NAK"}, nreq : {0, 1, 3}]}
+Shapes == {x \in AllShapes : WellFormed(x)}
 
 Init == sh \in Shapes
 Next == UNCHANGED sh
